@@ -74,8 +74,17 @@ def _GenerateConstant(cv: LinearIR.ConstantValue) -> WebAssembly.Instruction:
     t = cv.Type
     if t.IsScalar():
         if isinstance(t, LinearIR.IntegerType):
+            if not (-(2**31) <= cv.Value < 2**32):
+                raise Exception(
+                    f"Integer constant does not fit into 32 bit: {cv.Value}"
+                )
+            value = cv.Value
+            if value >= 2**31:
+                # i32.const takes a signed immediate; values above the signed
+                # range denote the same 32 bit pattern
+                value -= 2**32
             return WebAssembly.Instruction(
-                WebAssembly.opcodes["i32.const"], (cv.Value,)
+                WebAssembly.opcodes["i32.const"], (value,)
             )
         elif isinstance(t, LinearIR.FloatType):
             return WebAssembly.Instruction(
